@@ -271,6 +271,12 @@ class Run:
             self.undecided.append(f"{unit.name}: every normal path end is unreachable (vacuous contract)")
         if nvc == 0:
             self.undecided.append(f"{unit.name}: no obligations generated")
+        for lname, st in (rec.get("cut_loops") or {}).items():
+            # vacuity guard for loop invariants: both the loop body and the loop exit
+            # must be reachable under the invariant on some path
+            if st["step"] == 0 or st["exit"] == 0:
+                self.undecided.append(f"{unit.name}: {lname}: the invariant makes the loop "
+                                      f"{'body' if st['step'] == 0 else 'exit'} unreachable (vacuous invariant)")
         if len(self.samples) < 6 and obs:
             for ob in obs:
                 if ob.kind in ("post", "inv-step") and not z3.is_true(ob.goal):
